@@ -146,3 +146,10 @@ for _pid, _what in SOURCE_TIE.items():
     if "regenerated" not in CLAIMED[_pid]["technique"]:
         CLAIMED[_pid]["technique"] = CLAIMED[_pid]["technique"].replace(
             "over a hand-written model", "over a hand-written model + source constants regenerated from the Rust sources into Lean on every run", 1)
+
+# --- the driver's fast secp256k1 arithmetic is proved (DESIGN §13.7) -------------------------------------------------------
+for _pid in ("C04", "C05"):
+    CLAIMED[_pid]["text"] += (" The fast Jacobian secp256k1 code the compiled driver runs (Prim/Secp256k1.lean) is itself proved to compute the group law of "
+                              "y^2 = x^3 + 7 over ZMod p in Mathlib's WeierstrassCurve.Affine.Point, all special cases included, and to agree with secpCurve.mulG of the "
+                              "instantiated theorems for every scalar (Props/SecpJac.lean: jac_double_sound, jac_add_sound, jac_mul_sound, secp_mul_sound, secp_add_sound, "
+                              "secp_mulG_eq_mulA, secp_mulG_exec), so on the Lean side only k256 itself remains cross-tested.")
